@@ -361,7 +361,7 @@ static void conc_case(uint64_t case_idx) {
                 if (spins == 0x400) {
                     t0 = t1;
                 }
-                if (t1.tv_sec - t0.tv_sec > 100) {
+                if (t1.tv_sec - t0.tv_sec > 40) {
                     mon_violation("C15:conc:no-progress", "ring=%zu: acquire(min %zu, req %zu) of buffer #%llu never succeeded; published=%llu released=%llu",
                                   ring, minimum, req, (unsigned long long)k, (unsigned long long)k,
                                   (unsigned long long)__atomic_load_n(&g.release_done, __ATOMIC_RELAXED));
